@@ -21,8 +21,10 @@ mvars == <<d, m>>
 
 D0(config) == [phase |-> CASE config.enc \in {"stream", "mt"} -> "start" [] config.enc = "block" -> "inblock" [] OTHER -> "raw",
                needDict |-> TRUE, needProps |-> TRUE, props |-> "nil", sync |-> FALSE,
+               pre |-> config.chain0.pre,        \* the non-last filter the decoder applies (from the Block Header)
                bad |-> FALSE, decodable |-> 0, dblocks |-> <<>>, dsum |-> 0]
-M0(config) == [ended |-> FALSE, fatal |-> FALSE, wantChain |-> config.chain0, wantProps |-> config.chain0.props]
+M0(config) == [ended |-> FALSE, fatal |-> FALSE, wantChain |-> config.chain0, wantProps |-> config.chain0.props,
+               anyBlk |-> FALSE]     \* a change was refused inside the open Block: its lc/lp/pb may or may not have been taken
 MInit == d = D0(cfg) /\ m = M0(cfg)
 MResetTo(config) == d' = D0(config) /\ m' = M0(config)
 
@@ -35,7 +37,8 @@ Decode(x, t, g) ==
             IF x.phase = "start" THEN [x EXCEPT !.phase = "blocks"] ELSE Bad(x)
       [] t.kind = "block_header" ->
             IF x.phase = "blocks"
-            THEN [x EXCEPT !.phase = "inblock", !.needDict = TRUE, !.needProps = TRUE, !.props = "nil", !.sync = FALSE]
+            THEN [x EXCEPT !.phase = "inblock", !.needDict = TRUE, !.needProps = TRUE, !.props = "nil", !.sync = FALSE,
+                           !.pre = t.chain.pre]
             ELSE Bad(x)
       [] t.kind = "lzma" ->
             IF x.phase \notin {"inblock", "raw"} THEN Bad(x)
@@ -43,13 +46,13 @@ Decode(x, t, g) ==
                      props1 == IF t.reset \in {"props", "all"} THEN t.hprops ELSE x.props
                      \* decoder state = encoder state at the first symbol of the chunk?
                      sync1 == IF t.reset # "none" THEN t.efresh ELSE (~t.efresh /\ x.sync)
-                     ok == formatOk /\ sync1 /\ props1 = t.eprops
+                     ok == formatOk /\ sync1 /\ props1 = t.eprops /\ t.pre = x.pre
                  IN  [x EXCEPT !.needDict = FALSE, !.needProps = FALSE, !.props = props1, !.sync = ok,
                                !.bad = x.bad \/ ~ok,
                                !.decodable = IF ok /\ ~x.bad /\ t.allOut THEN g ELSE @]
       [] t.kind = "unc" ->
             IF x.phase \notin {"inblock", "raw"} THEN Bad(x)
-            ELSE LET ok == x.needDict => t.dictReset
+            ELSE LET ok == (x.needDict => t.dictReset) /\ t.pre = x.pre
                  IN  [x EXCEPT !.needDict = FALSE, !.needProps = x.needProps \/ t.dictReset,
                                \* the encoder ran its LZMA coder over these bytes, the decoder does not
                                !.sync = FALSE,
@@ -86,9 +89,11 @@ Note(x, e, t) ==
             [x EXCEPT !.ended = @ \/ (e.ret = "STREAM_END" /\ e.a = "FINISH"),
                       !.fatal = @ \/ (obs'.innerRan /\ e.ret \notin NonFatalRets)]
       [] e.kind = "update" ->
-            IF e.ret = "OK" THEN [x EXCEPT !.wantChain = e.target, !.wantProps = e.target.props]
-            ELSE IF e.open THEN [x EXCEPT !.wantProps = "any"] ELSE x
-      [] t.kind = "block_header" -> [x EXCEPT !.wantProps = t.chain.props]
+            IF e.ret = "OK" THEN [x EXCEPT !.wantChain = e.target, !.wantProps = e.target.props, !.anyBlk = FALSE]
+            ELSE IF e.open THEN [x EXCEPT !.wantProps = "any", !.anyBlk = TRUE] ELSE x
+      \* a new Block starts with the lc/lp/pb of the chain last accepted (they are not in the Block Header)
+      [] t.kind = "block_header" -> [x EXCEPT !.wantProps = IF x.anyBlk THEN "any" ELSE x.wantChain.props]
+      [] t.kind = "block_end" -> [x EXCEPT !.anyBlk = FALSE]
       [] OTHER -> x
 
 MStep == /\ d' = Decode(d, tok', Given')
@@ -124,11 +129,14 @@ ContractStep ==
     /\ e.kind = "update" =>
           /\ (~ValidChain(e.target) => e.ret = "OPTIONS_ERROR")
           /\ (~InitOk(e.target) => e.ret # "OK")
+          \* a failing allocator is the only source of LZMA_MEM_ERROR, and then nothing has been accepted
+          /\ (e.ret = "MEM_ERROR" => e.fail # "none")
+          /\ e.ret \in {"OK", "PROG_ERROR", "OPTIONS_ERROR", "MEM_ERROR"}
           \* the chain itself changes only between Blocks; inside a Block only lc/lp/pb
           /\ (e.ret = "OK" /\ e.open) => (cfg.enc # "mt" /\ e.target.pre = fl.pre /\ e.target.lz = fl.lz)
           /\ UNCHANGED lcvars
     \* (6) an accepted change takes effect from that point
-    /\ (tok'.kind = "block_header" /\ cfg.enc = "stream") => tok'.chain = m.wantChain
+    /\ (tok'.kind = "block_header" /\ cfg.enc = "stream") => tok'.chain.pre = m.wantChain.pre
     /\ (tok'.kind = "lzma" /\ m.wantProps # "any") => tok'.eprops = m.wantProps
 
 \* whatever happens (refused flushes, refused or accepted updates): no undecodable byte is ever written
